@@ -376,6 +376,39 @@ theorem C03_newrefval_fixpoint (e : Elem) (n m : Nat) (sgn : Bool) (hn : 1 < n) 
   rw [fieldInt_ok i n hn (by rw [hi]; exact hm), hi, hd]
   rfl
 
+/-- Element fixpoint for code / flag (associated, skipped) fields: decode, then encode, gives the same bits. -/
+theorem C03_element_fixpoint_codeflag (dd : DDesc) (n raw : Nat)
+    (h0 : 0 < n) (h64 : n ≤ 64) (hr : raw < 2 ^ n) :
+    (∀ (sd : St) (suf : Bits), sd.bits = toBits n raw ++ suf →
+      decCodeflagU dd n sd = .ok (sd.afterRead dd suf (uintVal (canonUInt n raw)))) ∧
+    (∀ se : St, se.curVal = some (uintVal (canonUInt n raw)) →
+      encCodeflagU dd n se = .ok (se.afterWrite dd (toBits n raw))) := by
+  refine ⟨fun sd suf hb => ?_, fun se hv => ?_⟩
+  · have hd := decCodeflagU_field dd sd (toBits n raw) suf
+      (by rw [toBits_length]; exact h0) (by rw [toBits_length]; exact h64) hb
+    rw [toBits_length] at hd
+    simp only [toBits_all_iff n raw hr, ofBits_toBits, Nat.mod_eq_of_lt hr] at hd
+    exact hd
+  · rw [encCodeflagU_eq dd n se _ hv]
+    unfold canonUInt
+    split
+    · next hc =>
+      have hp : 2 ^ n - 1 < 2 ^ n := by omega
+      simp only [uintVal, codeflagField, missingPattern_ok n h64, Except.bind,
+        fieldUInt_nat n _ h0 hp, Except.map]
+      rw [hc.2]
+    · simp only [uintVal, codeflagField, fieldUInt_nat n raw h0 hr, Except.map]
+
+/-- Element fixpoint for character fields: the `k` bytes come back as they are and are written back as they are. -/
+theorem C03_element_fixpoint_string (dd : DDesc) (b : List UInt8) :
+    (∀ (sd : St) (suf : Bits), sd.bits = bytesToBits b ++ suf →
+      decStringU dd b.length sd = .ok (sd.afterRead dd suf (.bytes b))) ∧
+    (∀ se : St, se.curVal = some (.bytes b) →
+      encStringU dd b.length se = .ok (se.afterWrite dd (bytesToBits b))) := by
+  refine ⟨fun sd suf hb => decStringU_field dd sd b suf hb, fun se hv => ?_⟩
+  rw [encStringU_eq dd _ se _ hv]
+  simp only [stringField, Except.map, padBytes_of_length b b.length rfl]
+
 /-- non-vacuity + the minus-zero exception on 4 bits: `1000` decodes to 0, which is written as `0000` -/
 example :
     (decNewRefvalU default 4 { bits := [true, false, false, false], vals := [[]] }).toOption.map (·.vals)
